@@ -81,7 +81,8 @@ def run(ctx):
                         ("valid-other", valid_pt), ("zero", bytes(32)),
                         ("alias", (int.from_bytes(valid_pt, "big") + P).to_bytes(32, "big"))]
             else:
-                vals = [("r-1", (R - 1).to_bytes(32, "little")), ("r", R.to_bytes(32, "little")),
+                vals = [("le-small", (5).to_bytes(32, "little")), ("le-small", (2 ** 64).to_bytes(32, "little")),
+                        ("r-1", (R - 1).to_bytes(32, "little")), ("r", R.to_bytes(32, "little")),
                         ("r+1", (R + 1).to_bytes(32, "little")), ("2^256-1", b"\xff" * 32), ("zero", bytes(32)),
                         ("be-of-small", (5).to_bytes(32, "big"))]
             for name, v in vals:
@@ -136,7 +137,8 @@ def run(ctx):
     # proofs): the result is a function of the bytes read - one process, values reused across calls
     hl, hc = [], []
     seqs = [l for l, c in zip(lines, cls) if l.startswith(("mprd ", "ipard ")) and
-            c.split(":", 1)[1] in ("honest", "short-1", "trailing-1", "read-error", "field-off-curve", "field-valid-other", "length")]
+            c.split(":", 1)[1] in ("honest", "short-1", "trailing-1", "read-error", "field-off-curve", "field-valid-other", "length",
+                                   "field-zero", "field-le-small")]
     rng.shuffle(seqs)
     for l in seqs[: (120 if ctx.quick() else 3000)]:
         op, rest = l.split(" ", 1)
@@ -147,7 +149,20 @@ def run(ctx):
         for pre in (pr2, pr2[:300], proofs[-1]):
             hl += ["mprdu - " + E.hx(pre), "mprdu - " + E.hx(pr2), "ipardu - " + E.hx(pre[32:]), "ipardu - " + E.hx(pr2[32:])]
             hc += ["used-receiver:mprd"] * 2 + ["used-receiver:ipard"] * 2
+    # honest proof, then the same proof with a small final scalar (0, 5, 2^64), into the same value
+    for pr2 in proofs[:2]:
+        for small in (0, 5, 2 ** 64, 2 ** 128 + 3):
+            m2 = pr2[:544] + small.to_bytes(32, "little")
+            hl += ["mprdu - " + E.hx(pr2), "mprdu - " + E.hx(m2), "ipardu - " + E.hx(pr2[32:]), "ipardu - " + E.hx(m2[32:])]
+            hc += ["used-receiver:mprd"] * 2 + ["used-receiver:ipard"] * 2
     diff(ctx, hl, "proof deserialisation into used values (one process)", hc, shards=1, impl_shards=1)
+    # two proofs whose L / R vectors are neighbours in one array (the first with spare capacity): writing one
+    # must not disturb the other
+    wl = []
+    for a in proofs[:3]:
+        for b2 in proofs[:3]:
+            wl.append("ipawr2 %s %s" % (E.hx(a[32:]), E.hx(b2[32:])))
+    diff(ctx, wl, "writing proofs that share one backing array", ["write-neighbours"] * len(wl))
     ctx.extra["accepted_streams"] = acc
 
 
